@@ -88,11 +88,12 @@ def eval : Nat → Ctx → Expr → Except EvErr Int
           if ctx.depth ≥ maxMacroDepth then .error (.recursionLimit name)
           else eval fuel { ctx with vars := some vars, depth := ctx.depth + 1 } body
       | _ => .error (.unknownMacro name)
-/-- `zip(parameters, arguments)`: bindings for the shorter of the two lists -/
+/-- `zip(parameters, arguments)`, arguments evaluated in order; surplus arguments are ignored, a parameter left without
+argument is an error naming it (`fix:` 841db2a, D28: before, the bindings were those of the shorter list) -/
 def evalArgs : Nat → Ctx → List String → Exprs → Except EvErr (List (String × Int))
   | 0, _, _, _ => .error (.recursionLimit "fuel")
   | _ + 1, _, [], _ => .ok []
-  | _ + 1, _, _ :: _, .nil => .ok []
+  | _ + 1, _, p :: _, .nil => .error (.undefinedVariable p)
   | fuel + 1, ctx, p :: ps, .cons a as =>
     match eval fuel ctx a with
     | .error e => .error e
